@@ -1011,6 +1011,10 @@ func (g *Gen) genKind(k string) *Op {
 					e.probe("report_names_shard_not_stored_yet")
 				}
 				op := &Op{K: k, A: rep.Idx, Acc: a.Idx + 1, D: i, N: int64(r.Intn(3))}
+				if len(m.Orders) > 1 && r.Chance(0.3) {
+					op.W = r.Range(1, len(m.Orders)) // names an earlier order of the model
+					e.probe("report_names_earlier_order_of_model")
+				}
 				if k == "recover" && r.Chance(0.5) {
 					op.A = a.Idx // the accused declares recovery itself
 				}
@@ -1158,6 +1162,12 @@ func (g *Gen) genKind(k string) *Op {
 		}
 		if r.Chance(0.15) {
 			op.N = -int64([]int{895, 905, 5000}[r.Intn(3)])
+		}
+		if len(e.Cur.Did.AccountLists) > 1 && r.Chance(0.2) {
+			// the lists of this update also name an account of a *different* DID
+			op.Mis = []string{"foreign-remove", "foreign-update", "foreign-remove"}[r.Intn(3)]
+			op.W = r.Range(0, 7)
+			e.probe("did_update_names_foreign_account")
 		}
 		return op
 	case "sid_payaddr":
